@@ -666,7 +666,7 @@ def version_has(version, f):
 
 def witness(store, req, fs, off, mx, version, obs, extra=None):
     w = {'plan': store.plan, 'requester': list(req), 'filters': fs, 'offset': off, 'maximum': mx, 'version': list(version),
-         'observed': obs, 'store': store.objs}
+         'observed': obs, 'store': store.objs if len(store.objs) <= 40 else '%d objects (rebuild from the plan)' % len(store.objs)}
     if extra:
         w.update(extra)
     return w
@@ -718,7 +718,9 @@ def oracle_check(ctx, store, req, fs, off, mx, version, obs, full_obs):
                 missing = sorted(want - set(ids))
                 ctx.violation({'op': 'LOCATE', 'kind': 'extra' if extra else 'missing', 'filters': filter_class(fs)},
                               witness(store, req, fs, off, mx, version, obs, {'expected': sorted(want), 'extra': extra, 'missing': missing}),
-                              'Locate answered %s but the permitted matching objects are %s' % (sorted(ids), sorted(want)))
+                              ('Locate answered %s but the permitted matching objects are %s' % (sorted(ids), sorted(want))) if len(want) + len(ids) <= 24 else
+                              ('Locate answered %d identifiers but %d objects are permitted and match; missing %s%s, extra %s%s' % (
+                                  len(ids), len(want), missing[:12], '...' if len(missing) > 12 else '', extra[:12], '...' if len(extra) > 12 else '')))
                 hit = True
     elif (off is None or off >= 0) and (mx is None or mx >= 0) and full_obs is not None and full_obs['ids'] is not None:
         full = [int(x) for x in full_obs['ids']]
@@ -817,6 +819,77 @@ def run_store(ctx, rng, idx, plan, pols, n_requests, cases, meta, defs, epoch=Fa
                 pages_check(ctx, store, req, fs, version, full_obs, rng.choice([1, 2, 3]))
         if len(ctx.cov['samples']) < 3 and store.objs:
             ctx.sample({'store': store.objs[:3], 'request': meta[-1]['filters'], 'requester': meta[-1]['requester'], 'observed': meta[-1]['observed']})
+    finally:
+        store.close()
+
+
+def gen_large_plan(rng, n):
+    """A large store: many objects per second of the harness clock (bulk creation), several owners and policies,
+    mostly cheap symmetric keys with a sprinkling of the other types; the clock now and then steps forward, rarely back."""
+    plan = gen_plan(rng, n)
+    per_second = rng.choice([15, 40, 40, 90])
+    for o in plan:
+        if o['type'] not in ('SYMMETRIC_KEY',) and rng.random() < 0.7:
+            o.pop('alg', None)
+            o.pop('len', None)
+            o.update({'type': 'SYMMETRIC_KEY', 'how': 'create', 'alg': 'AES', 'len': rng.choice([128, 256])})
+        if o['type'] == 'SYMMETRIC_KEY':
+            o['how'] = 'create'
+        o['policy'] = rng.choice(['default', 'open', 'open', 'team', 'team', 'partial', 'closed'])
+        if rng.random() < 0.85:
+            o['state'] = 'PRE_ACTIVE'
+        r = rng.random()
+        o['advance'] = 1 if r < 1.0 / per_second else (-2 if r > 0.995 else 0)
+    return plan
+
+
+def run_large(ctx, rng, idx, n, pols, cases, meta, defs):
+    """The size dimension of "all stores": a store of n objects (n around powers of ten and of two) with many objects
+    sharing a second; unfiltered, filtered and paged Locates by several requesters.  The direct oracle runs on the whole
+    answer (set, order, slices, page partition); Coq compares every answer in full as well."""
+    plan = gen_large_plan(rng, n)
+    store = Store(ctx, plan, pols)
+    try:
+        sname = 'store_%d' % idx
+        defs.append('Definition %s : list obj := %s.' % (sname, cp.lst(store.objs, obj_to_coq).replace('; (mkObj', ';\n   (mkObj')))
+        ctx.count('store.large.%d_objects' % len(store.objs))
+        ctx.count('store.large.distinct_seconds', len({o['idate'] for o in store.objs}))
+        reqs = [('alice', None), ('bob', None), ('carol', ['g1']), ('bob', ['g3']), ('dave', None)]
+        dates = sorted(o['idate'] for o in store.objs)
+        requests = []
+        for req in reqs:
+            requests.append((req, []))
+        # filters on columns of the base row are cheap for the engine (no per-object lazy load); two requests per store
+        # use attributes of the subclass rows (about 1 ms per object and filter in the engine)
+        for req in reqs[:3]:
+            requests.append((req, [['otype', 'SYMMETRIC_KEY']]))
+            requests.append((req, [['policy', rng.choice(['open', 'team', 'default'])]]))
+            requests.append((req, [['date', dates[len(dates) // 3]], ['date', dates[-1]]]))
+            requests.append((req, [['date', 0], ['date', dates[len(dates) // 2]]]))
+            requests.append((req, [['date', dates[len(dates) // 2]]]))
+            requests.append((req, [['sensitive', False], ['otype', rng.choice(['SYMMETRIC_KEY', 'CERTIFICATE', 'PUBLIC_KEY'])]]))
+        heavy = [(reqs[0], [['state', 'PRE_ACTIVE'], ['mask', []]]), (reqs[1], gen_filters(rng, store, reqs[1]))]
+        requests += heavy
+        for req, fs in requests:
+            version = rng.choice([(1, 2), (1, 4), (2, 0)]) if not any(f[0] == 'policy' for f in fs) else (1, 4)
+            full_obs = run_locate(store, req, fs, None, None, version)
+            n_full = len(full_obs['ids']) if full_obs['ids'] is not None else 0
+            ctx.count('large.full.%s' % ('failed' if full_obs['ids'] is None else 'empty' if not n_full else 'over_100' if n_full > 100 else 'up_to_100'))
+            menu = [(None, None)]
+            is_heavy = any(rf is fs for _, rf in heavy)
+            if n_full:
+                b = rng.choice([100, 100, 64, 128, 256, 10])
+                menu += [(b - 1, 2), (b, None), (None, b), (None, b + 1), (b + 1, 5), (n_full - 1, 3), (0, n_full)][:(1 if is_heavy else rng.choice([2, 4, 7]))]
+            for (off, mx) in menu:
+                obs = full_obs if (off is None and mx is None) else run_locate(store, req, fs, off, mx, version)
+                cases.append(case_to_coq(sname, req, fs, off, mx, obs, version))
+                meta.append({'store': idx, 'plan': plan, 'requester': list(req), 'filters': fs, 'offset': off, 'maximum': mx,
+                             'version': list(version), 'observed': obs, 'objs': None})
+                ctx.case_seen((idx, req, fs, off, mx), nontrivial=True)
+                ctx.count('large.locate.%s' % ('failed' if obs['ids'] is None else ('empty' if not obs['ids'] else 'nonempty')))
+                oracle_check(ctx, store, req, fs, off, mx, version, obs, full_obs)
+            if n_full and not is_heavy:
+                pages_check(ctx, store, req, fs, version, full_obs, rng.choice([50, 100, 100, 64, 33] if n_full > 40 else [7, 10]))
     finally:
         store.close()
 
@@ -983,7 +1056,7 @@ def run_grid(ctx, rng, idx, plan, pols, cases, meta, defs):
                 version = rng.choice([(1, 4), (2, 0)])
             full_obs = run_locate(store, req, fs, None, None, version)
             n_full = len(full_obs['ids']) if full_obs['ids'] is not None else 2
-            for (off, mx) in [(None, None), (1, None), (None, 1), (0, n_full), (1, max(n_full - 1, 0)), (n_full, 1)][:rng.choice([1, 2, 3, 6])]:
+            for (off, mx) in [(None, None), (1, None), (None, 1), (0, n_full), (1, max(n_full - 1, 0)), (n_full, 1)][:rng.choice([1, 1, 2, 3, 6])]:
                 obs = full_obs if (off is None and mx is None) else run_locate(store, req, fs, off, mx, version)
                 cases.append(case_to_coq(sname, req, fs, off, mx, obs, version))
                 meta.append({'store': idx, 'plan': plan, 'requester': list(req), 'filters': fs, 'offset': off, 'maximum': mx,
@@ -1003,7 +1076,7 @@ def run(ctx):
     WIRE['roundtrip'] = WIRE['fallback'] = 0
     ctx.cov['rule'] = ('fixed grid (every filter kind aimed at every object of a store holding all seven stored types and a key pair, with and without a '
                        'certificate in sight; date ranges in both orders, exact, empty, three dates with and without a visible object; type-guarded length filters) '
-                       'and seeded stores of 0-15 objects built through Register/Create/CreateKeyPair/Activate/Revoke under a controlled clock '
+                       'seeded stores of 0-15 objects and large stores (quick: one of ~100-130 and one of ~255-300 objects; thorough: 99..1025, sizes around powers of ten and two; 15-90 objects per clock second, so date ties straddle any page boundary) built through Register/Create/CreateKeyPair/Activate/Revoke under a controlled clock '
                        '(7 object types, 3 owners, 8 policy choices incl. group sections, refusing, missing and absent policies, 4 states, names of both name types, '
                        'object groups, application specific information, sensitive flag, equal / distinct / non-monotone Initial Dates; every 9th store partly created at '
                        'the epoch, every 9th with NULL length or absent algorithm written through SQL) x conjunctions of 0-4 filters over the 13 filter kinds of the '
@@ -1018,7 +1091,7 @@ def run(ctx):
     rng = ctx.subrng('locate')
     pols = build_policies()
     cases, meta, defs = [], [], ['Definition pols_ : policies :=\n  %s.' % policies_to_coq(pols)]
-    n_stores = 30 if quick else 160
+    n_stores = 22 if quick else 160
     n_requests = 12 if quick else 30
     sizes = [0, 1, 2, 3, 5, 8, 12]
     # fixed grid first: every filter kind x every stored type, without and with a certificate in sight
@@ -1030,6 +1103,23 @@ def run(ctx):
         doctored = (idx % 9 == 7)
         plan = gen_plan(rng, n, epoch=epoch, doctored=doctored)
         run_store(ctx, rng, idx, plan, pols, n_requests, cases, meta, defs, epoch=epoch or doctored)
+    # the size dimension: large stores with many objects per second, sizes around powers of ten and of two
+    if quick:
+        large = [rng.choice([99, 100, 101, 128, 129, 130]), rng.choice([255, 256, 257, 300])]
+    else:
+        large = [99, 100, 101, 127, 128, 129, 200, 255, 256, 257, 511, 512, 513, 1000, 1001, 1025]
+    ctx.log('grid and seeded stores done: %d cases' % len(cases))
+    cases_l, meta_l, defs_l = [], [], [defs[0]]
+    for k, n in enumerate(large):
+        run_large(ctx, rng, 8000 + k, n, pols, cases_l, meta_l, defs_l)
+    ctx.log('large stores done: %s objects, %d cases' % (large, len(cases_l)))
+    header_l = HEADER + '\n'.join(defs_l) + '\n'
+    bad_l = ctx.run_cases('locate_large', header_l, cases_l, 'check_case', shard=120,
+                          what='the same comparison on stores of ~100 to ~1000 objects with many objects per second')
+    for i in bad_l[:5]:
+        m = meta_l[i]
+        ctx.disagreement('locate_large', {k: m[k] for k in ('plan', 'requester', 'filters', 'offset', 'maximum', 'version', 'observed')},
+                         impl_says=m['observed'])
     header = HEADER + '\n'.join(defs) + '\n'
     bad = ctx.run_cases('locate', header, cases, 'check_case',
                         what='Locate.locate_model (allowed_of policies requester) vs KmipEngine._process_locate: identifier list in order, failures as one class')
@@ -1093,6 +1183,27 @@ def shrink_first_violation(ctx):
     req = (w['requester'][0], w['requester'][1])
     off, mx, version, ps = w.get('offset'), w.get('maximum'), tuple(w.get('version') or (1, 2)), w.get('page_size')
     best, budget, changed = None, 80, True
+    if len(plan) > 40:
+        # large store: remove chunks (halving sizes) under a wall-clock budget, then go on one at a time if small enough
+        import time as _t
+        deadline = _t.time() + 75
+        chunk = len(plan) // 2
+        while chunk >= 1 and _t.time() < deadline:
+            i = 0
+            while i < len(plan) and _t.time() < deadline:
+                cand = plan[:i] + plan[i + chunk:]
+                r = violates(ctx, cand, req, fs, off, mx, version, kind, ps)
+                if r:
+                    plan, best = cand, r
+                else:
+                    i += chunk
+            chunk //= 2
+        for j in range(len(fs) - 1, -1, -1):
+            cand = fs[:j] + fs[j + 1:]
+            r = violates(ctx, plan, req, cand, off, mx, version, kind, ps)
+            if r:
+                fs, best = cand, r
+        changed = len(plan) <= 40
     while changed and budget > 0:
         changed = False
         for i in range(len(plan) - 1, -1, -1):
